@@ -101,9 +101,17 @@ def run(chk, facts, tier):
         ok = ok and has_atom(guard_atoms(fn, st[0]), lambda n: is_name(n, FLAG), {'=='}, lambda o: cval(o) == 0)
         chk.instance('response-clears-and-echoes', fn, 'current_opcode_ = *value after the busy test, before the switch', ok, '' if ok else 'the request opcode is not recorded for the response, or is overwritten by a request that is refused while a procedure is pending (the pending response then carries the wrong opcode)', key='store opcode')
     for fn in variants(facts, CP + 'csc_read_control_point', chk):
-        clr = [s for tgt, op, val, s in stores(fn.body) if target_name(tgt) == FLAG and op == '=' and cval(val) == 0]
-        ok = len(clr) >= 1 and not fn.guards(clr[0])
-        chk.instance('response-clears-and-echoes', fn, FLAG + ' = false unconditionally', ok, '' if ok else 'the response does not always end the procedure', key='clear flag')
+        def on_node(ts, node):
+            for tgt, op, val, st in stores(node):
+                if st is node and target_name(tgt) == FLAG and op == '=':
+                    return 'clear' if cval(val) == 0 else 'set'
+            return ts
+        res = explore(fn, 'pending', on_node)
+        bad = [tr for ts, tr in res if ts != 'clear']
+        ok = bool(res) and not bad
+        chk.instance('response-clears-and-echoes', fn, FLAG + ' = false on every path to the exit (%d paths)' % len(res), ok,
+                     '' if ok else 'a path through the response leaves procedure_in_progress_ set (%s): every later control point write is refused with Procedure Already In Progress' %
+                     ' ; '.join('line %d: (%s) is %s' % (l, t[:40], o) for l, t, o in (bad[0][-3:] if bad else [])), key='clear flag')
         for tgt, op, val, s in stores(fn.body):
             t = strip_casts(tgt)
             if t.k == 'ArraySubscriptExpr' and is_name(t.c[0], 'out_buffer') and cval(t.c[1]) == 1:
